@@ -72,7 +72,8 @@ def run_property(prop, tier, seed, replay=None):
     def evaluate(cs, ob, wd):
         terms = [(c["id"], prop.to_coq(c, ob[c["id"]])) for c in cs]
         return coq_eval(pid, prop.hold_mod, prop.agree_mod if agree_ok else None, terms, wd,
-                        per_shard=prop.per_shard, extra_imports=getattr(prop, "extra_imports", ""))
+                        per_shard=prop.per_shard, extra_imports=getattr(prop, "extra_imports", ""),
+                        scope=getattr(prop, "scope", "N_scope"))
 
     ev = evaluate(cases, obs, workdir)
     if ev["errors"]:
